@@ -262,6 +262,9 @@ func runOne(sp solverSpec, file string, timeoutMs, seed int) (string, string) {
 	_ = cmd.Run()
 	o := out.String()
 	first := ""
+	if strings.Contains(o, "(error ") {
+		return "error", o
+	}
 	for _, l := range strings.Split(o, "\n") {
 		l = strings.TrimSpace(l)
 		if l == "unsat" || l == "sat" || l == "unknown" || l == "timeout" {
